@@ -242,6 +242,7 @@ pub fn compare(pred: &Pred, obs: &Obs, caps: &Caps, host: &str, step: usize) -> 
 /// What the driver may do next, derived from the *model's* state only
 fn choose_action(
     model: &Model,
+    sweep_pending: bool,
     rng: &mut Rng,
     cfg: &RunCfg,
     next_val: &mut u64,
@@ -250,8 +251,16 @@ fn choose_action(
 ) -> Option<Action> {
     let outstanding = model.outstanding();
     let mut cands: Vec<(u32, Action)> = vec![];
+    // While an aborted command has not been swept yet (it is swept when it is next polled), closing
+    // the channel of a request whose receiver is gone is kept out of the history: the channel still
+    // holds the waker of the receiver's last poll unless an earlier wake used it up, and waking that
+    // stale waker polls the command chain once more, i.e. *may* sweep the command at this point.
+    // Whether it does depends on bookkeeping inside futures-channel that no property speaks about.
     for o in &outstanding {
         let (site, arg) = o.key;
+        if sweep_pending && !o.receiver_alive && o.kind != KIND_NEVER {
+            continue;
+        }
         match o.kind {
             KIND_ONCE => {
                 if !o.resolved_once {
@@ -330,6 +339,8 @@ fn maybe_batch(first: Action, models: &[Model], rng: &mut Rng, cfg: &RunCfg, bat
         .outstanding()
         .into_iter()
         .filter(|o| o.key != k1 && o.kind != KIND_NEVER && !(o.kind == KIND_ONCE && o.resolved_once))
+        // (see choose_action: no channel of a dead receiver is closed while a sweep is pending)
+        .filter(|o| o.receiver_alive || !models.iter().any(|m| m.has_zombies()))
         .collect();
     if cands.is_empty() {
         return first;
@@ -557,8 +568,12 @@ pub fn run_case(
                     }
                 }
                 if cleanup {
-                    // resolve-or-drop everything that is left
-                    match models[0].outstanding().first() {
+                    // resolve-or-drop everything that is left (requests with a live receiver first;
+                    // with a sweep pending the others are left alone, see choose_action)
+                    let sweep_pending = models.iter().any(|m| m.has_zombies());
+                    let all = models[0].outstanding();
+                    let pick = all.iter().find(|o| o.receiver_alive || o.kind == KIND_NEVER).or_else(|| if sweep_pending { None } else { all.first() });
+                    match pick {
                         Some(o) => {
                             let (site, arg) = o.key;
                             if o.kind == KIND_ONCE && !o.resolved_once && rng.chance(1, 2) {
@@ -577,7 +592,7 @@ pub fn run_case(
                 } else {
                     let mut a = None;
                     for _ in 0..8 {
-                        let c = choose_action(&models[0], rng, &eff_cfg, &mut next_val, &mut aborted, &mut extended);
+                        let c = choose_action(&models[0], models.iter().any(|m| m.has_zombies()), rng, &eff_cfg, &mut next_val, &mut aborted, &mut extended);
                         // a notification id can be answered at most once over the bridge
                         if let Some(Action::Resolve { site, arg, .. }) = &c {
                             if !never_twice && never_resolved.contains(&(*site, *arg)) {
